@@ -1,6 +1,7 @@
 """C05 - nested members are converted by their own type's rules (compositional oracle, adversarial naming)."""
 from __future__ import annotations
 
+import dataclasses
 import json
 
 import typelib
@@ -264,6 +265,27 @@ def judge_term(term, ns, ann, res, case, only=None):
             res.violation(f"C05/marshal/{E.shallow_kind(term)}/{'differs-from-member-wise-conversion' if exp.ok == got.ok else 'exception-parity'}",
                           f"marshal({short(v, 100)}, t={term.src}) -> {short(got.val if got.ok else got.exc, 100)}; rebuilt from independently converted members -> {short(exp.val if exp.ok else exp.exc, 100)}",
                           dict(case, only=["m", vi]))
+    # ---- marshal direction, an instance of a SUBCLASS that adds a field: the routine of T emits T's members only
+    if term.kind in ("cls", "struct") and (only is None or only == ["m", "subclass"]):
+        cls = ns.get(getattr(term, "name", None))
+        vals = term.values(ns)[:3]
+        if isinstance(cls, type) and dataclasses.is_dataclass(cls) and vals and not isinstance(vals[0], dict):
+            pr = cls.__dataclass_params__
+            mk = call(lambda: dataclasses.make_dataclass(cls.__name__ + "Wider", [("zz_added", int, dataclasses.field(default=5, kw_only=True))], bases=(cls,), frozen=pr.frozen, eq=pr.eq))
+            if mk.ok:
+                for v in vals:
+                    wv = call(lambda v=v: mk.val(**{f.name: getattr(v, f.name) for f in dataclasses.fields(cls)}))
+                    if not wv.ok:
+                        continue
+                    exp = call(marshal_reference, term, ns, mms, wv.val)
+                    got = call(bm.val, wv.val)
+                    res.evals += 1
+                    res.outcomes.add(h64(term.src, "m-sub", repr(v), "ok" if got.ok else got.excname, exp.ok))
+                    if exp.ok != got.ok or (exp.ok and not same(got.val, exp.val)):
+                        res.violation(f"C05/marshal/{E.shallow_kind(term)}/subclass-instance/{'differs-from-member-wise-conversion' if exp.ok == got.ok else 'exception-parity'}",
+                                      f"marshal({short(wv.val, 100)}, t={term.src}) (an instance of a subclass adding the field zz_added) -> {short(got.val if got.ok else got.exc, 100)}; "
+                                      f"rebuilt from the independently converted members of {term.src} -> {short(exp.val if exp.ok else exp.exc, 100)}",
+                                      dict(case, only=["m", "subclass"]))
     return True
 
 
